@@ -166,4 +166,30 @@ for fn, nm in ((1, 'timingsafe_bcmp'), (2, 'timingsafe_memcmp')):
       note='self-composition over mechanically inserted branch events (goto-instrument --branch)',
       assumptions=['C19: data independence is shown on the C abstract machine (branch events of the goto program); compiler-introduced branches and micro-architectural effects are out of scope'])
 
+# ---- query functions (C10 / C02 / C05): bounded against reference loops
+QCOMMON = STR_COMMON + ['src/mem/safe_mem_constraint.c', 'src/wchar/wcsnlen_s.c']
+QFAM = [
+    (1, 'strcmp_s', ['src/extstr/strcmp_s.c']), (2, 'strcasecmp_s', ['src/extstr/strcasecmp_s.c']), (3, 'strcmpfld_s', ['src/extstr/strcmpfld_s.c']),
+    (4, 'strfirstdiff_s', ['src/extstr/strfirstdiff_s.c']), (5, 'strfirstsame_s', ['src/extstr/strfirstsame_s.c']),
+    (6, 'strlastdiff_s', ['src/extstr/strlastdiff_s.c']), (7, 'strlastsame_s', ['src/extstr/strlastsame_s.c']),
+    (8, 'strprefix_s', ['src/extstr/strprefix_s.c']),
+    (10, 'strstr_s', ['src/extstr/strstr_s.c']), (11, 'strcasestr_s', ['src/extstr/strcasestr_s.c']), (12, 'strpbrk_s', ['src/extstr/strpbrk_s.c']),
+    (13, 'strspn_s', ['src/extstr/strspn_s.c']), (14, 'strcspn_s', ['src/extstr/strcspn_s.c']),
+    (20, 'strfirstchar_s', ['src/extstr/strfirstchar_s.c']), (21, 'strlastchar_s', ['src/extstr/strlastchar_s.c']),
+    (22, 'strchr_s', ['src/extstr/strchr_s.c', 'src/extmem/memchr_s.c']), (23, 'strrchr_s', ['src/extstr/strrchr_s.c', 'src/extmem/memrchr_s.c']),
+    (30, 'strisalphanumeric_s', ['src/extstr/strisalphanumeric_s.c']), (31, 'strisascii_s', ['src/extstr/strisascii_s.c']),
+    (32, 'strisdigit_s', ['src/extstr/strisdigit_s.c']), (33, 'strishex_s', ['src/extstr/strishex_s.c']),
+    (34, 'strislowercase_s', ['src/extstr/strislowercase_s.c']), (35, 'strismixedcase_s', ['src/extstr/strismixedcase_s.c']),
+    (36, 'strispassword_s', ['src/extstr/strispassword_s.c']), (37, 'strisuppercase_s', ['src/extstr/strisuppercase_s.c']),
+    (40, 'memcmp_s', ['src/extmem/memcmp_s.c']), (44, 'memchr_s', ['src/extmem/memchr_s.c']), (45, 'memrchr_s', ['src/extmem/memrchr_s.c']),
+    (50, 'strnlen_s', []),
+    (60, 'wcscmp_s', ['src/extwchar/wcscmp_s.c']), (61, 'wcsncmp_s', ['src/extwchar/wcsncmp_s.c']), (62, 'wcsstr_s', ['src/extwchar/wcsstr_s.c']),
+    (63, 'wmemcmp_s', ['src/extwchar/wmemcmp_s.c']), (64, 'wcsnlen_s', []),
+]
+for fn, nm, files in QFAM:
+    J('B.q.%s' % nm, ['C10', 'C02', 'C05', 'C01'], 'B', 'harness/queryfam.c', sources=files + QCOMMON,
+      defines=['FN=%d' % fn, 'N=%d' % (3 if fn >= 60 else 4), '__NO_CTYPE'], unwind=10, object_bits=10, replay=True, functions=['_%s_chk' % nm],
+      bound='operands of at most %d elements (exact-fit objects), all contents / sizes / flags' % (4 if fn >= 60 else 5), timeout=900,
+      stubs=['stubs/libc_query.c'])
+
 BY_NAME = {j.name: j for j in JOBS}
